@@ -307,6 +307,27 @@ CLAIMED = {
             'order, partitions, masks, flags, lattice points) executed on '
             'the real photometry classes against rendered-truth and '
             'reference-model oracles'),
+    'C13': ('3/C13',
+            'Only the index-arithmetic clauses: ImagePSF.evaluate queries '
+            'its spline at exactly the oversampled sample index k of the '
+            'evaluation point for symbolic real x_0, y_0, flux, symbolic '
+            'integer indices, oversampling 1,2,3,(2,4) and explicit or '
+            'default origin, and returns fill_value exactly outside '
+            '[0, n-1]; with the real spline it reproduces data*flux at '
+            'interior samples. GriddedPSFModel (grids 2x2, 3x2, 2x3, 3x3, '
+            'irregular spacing, shuffled grid_xypos, splines as '
+            'uninterpreted values) returns, for every real (x_0, y_0), the '
+            'bilinear blend of the four bounding ePSFs at the position '
+            'clamped to the grid (stored ePSF at grid points, nearest edge '
+            'value outside), and evaluation/copy/deepcopy histories give '
+            'the value of a fresh model. The normalisation, non-negativity '
+            'and Gaussian-consistency clauses (erf, exp, Bessel, Moffat '
+            'powers) are NOT claimed: no decision procedure is available '
+            'here for them.',
+            'splines replaced by recording / uninterpreted stubs in the '
+            'symbolic part; floats as reals (outermost-sample round trip '
+            'outside the claim)',
+            TECH),
 }
 
 NOT_YET = {}
